@@ -9,9 +9,10 @@ HOOK_COMMITS = subprocess.run(
 A1 = ("Assumes A1 (each actix handler holds the AppState mutex for its whole body, so request-level "
       "interleavings are all the behaviours threads could produce). Sampling, not proof.")
 
-A3 = ("The broker talks to the server only through the harness's SimClient (the UistClient trait is the seam, delivery "
-      "eager / lazy / Pending-delayed per request); the reqwest client and real sockets are outside the simulation. "
-      "Transport errors are outside every property's quantifier and are not injected. Sampling, not proof.")
+A3 = ("The broker talks to the server only through the harness's SimClient (the UistClient trait is the seam; per request "
+      "the future is eager, lazy or Pending-delayed, and insert_order requests can be lost with Err returned); the reqwest "
+      "client and real sockets are outside the simulation. Errors from tick / fetch_quotes / now are not injected. "
+      "The holdings-map iteration order is scheduled through hook H2. Sampling, not proof.")
 
 CHECKS = {
   "C16": ("E4 strategy", "seeded simulation of the strategy loop with a request budget (bounded liveness) and a wire-fed ledger",
@@ -52,7 +53,7 @@ CHECKS = {
           "Structural conservation invariants (ids unique for life, admitted exactly once, at most one full fill, delete removes exactly one, admitted = filled + cancelled + resting) checked after every operation of long mixed histories with bad-cancel faults.",
           A1, "5/E1/C03"),
   "C07": ("E1 exchange+server", "seeded simulation of the server clock under client interleavings",
-          "Per backtest the k-th tick must match date k, report has_next iff k<N and leave clock/fetch_quotes/now on date k+1; loop clients tick to the end (bounded liveness: exactly N ticks), others tick past it; other clients interleave.",
+          "Per backtest the k-th tick must do exactly what a clone of the exchange does on the harness's own row k (differential oracle), report has_next iff k<N and leave clock/fetch_quotes/now on date k+1; loop clients tick to the end (bounded liveness: exactly N ticks), others tick past it; other clients interleave; datasets are loaded date by date or symbol by symbol, with negative, huge and irregular dates.",
           A1, "5/E1/C07"),
   "C08": ("E1 exchange+server", "seeded client scheduling (uniform and PCT-style) with digests and solo re-runs",
           "Ids are compared with every id ever handed out; after every request the digest of every other backtest must be unchanged; unknown targets must be rejected without effect; each backtest's response stream is compared with a solo re-run on a fresh server.",
@@ -61,7 +62,7 @@ CHECKS = {
           "Every Jura tick is compared with the property's table (one-shot IOC with 10% slippage, resting GTC, four trigger directions, child order kind/fields/fresh id announced, child not eligible on the firing tick) over all eight constructors plus deserialised orders with is_market=false and trigger_px != limit_px; what the exchange did structurally (who left the book, who appeared) is observed from snapshots.",
           A1, "5/E1/C18"),
   "C17": ("E1 exchange+server", "seeded simulation with adversarial batch layouts and sizes",
-          "Batches of up to 300 (quick) / 5000 (thorough) orders in iid, alternating, block, one-odd, sorted and reversed layouts; the admitted list must be a sells-first permutation with strictly growing ids and fills must come in book order.",
+          "Batches of up to 300 (quick, plus one 4100-5000 batch in one run of 400) / 5000 (thorough) orders in iid, alternating, block, one-odd, sorted and reversed layouts; the admitted list must be a sells-first permutation of the submitted batch and the tail of the book, ids strictly growing over the life of the exchange, book and fills in ascending id.",
           A1, "5/E1/C17"),
 }
 
